@@ -10,6 +10,8 @@ OpsV == {"GoNew", "Sentinel", "Errno", "New", "ULeaf", "UIs", "Wrap", "WithMessa
          "WithHint", "Hop"}
 \* restricted instance: chains whose type sequence is a strict prefix of another's
 OpsPrefix == {"GoNew", "ULeaf", "UWrap", "WithStack", "Mark"}
+\* restricted instance: explicit marks whose reference chain is longer / shorter than the error's
+OpsMark == {"GoNew", "New", "WithStack", "WithMessage", "Mark", "Hop"}
 ShapesPrefix == {<<"w2">>, <<"w1", "SEP", "w2">>}
 ShapesV == {<<"w1">>, <<"w1", "SEP", "w2">>}
 Shapes2V == {<<"w1">>, <<"w2">>}
